@@ -1,17 +1,17 @@
-\* C09: implementation-shaped wrong instance "y0 applied once more after the row" (y0 replaces the row's initial value): must VIOLATE RowIndependent
+\* C09: implementation-shaped wrong instance "results looked up by label" with repeated row labels (rows 1 and 3 share a label): must VIOLATE RowIndependent
 CONSTANTS
-    Ns = {2}
+    Ns = {3}
     Ws = {1}
     Modes = {"par"}
-    Variants = {"ia"}
-    ColSets = {{"x"}}
+    Variants = {"plain"}
+    ColSets = {{"k"}}
     Kinds = {"time_course"}
     FailModes = {"intfail"}
-    LabelSchemes = {"shuffled"}
-    KeyedByLabel = FALSE
+    LabelSchemes = {"repeated"}
+    KeyedByLabel = TRUE
     NameSchemes = {"plain"}
-    Y0s = {9}
-    Y0Again = TRUE
+    Y0s = {0}
+    Y0Again = FALSE
     MaxDur = 1
     SharedInSeq = FALSE
     Timed = FALSE
